@@ -1,6 +1,8 @@
 package extractor
 
 import (
+	"fmt"
+
 	"github.com/grafov/m3u8"
 	"github.com/internetarchive/Zeno/pkg/models"
 )
@@ -12,6 +14,14 @@ func IsM3U8(URL *models.URL) bool {
 
 func M3U8(URL *models.URL) (assets []*models.URL, err error) {
 	defer URL.RewindBody()
+
+	// The playlist decoder panics on some malformed playlists (nil pointer dereference):
+	// a hostile document must cost this URL an error, not the whole crawler
+	defer func() {
+		if r := recover(); r != nil {
+			assets, err = nil, fmt.Errorf("m3u8 decoder panicked: %v", r)
+		}
+	}()
 
 	var rawAssets ([]string)
 
@@ -49,7 +59,7 @@ func M3U8(URL *models.URL) (assets []*models.URL, err error) {
 
 	for _, rawAsset := range rawAssets {
 		assets = append(assets, &models.URL{
-			Raw:  rawAsset,
+			Raw: rawAsset,
 		})
 	}
 
